@@ -71,7 +71,6 @@ theorem C13_finish_marks_every_task (c : Ctx) (s : St) (obs : List Obs) (i : Nat
     (h : s.tasks[i]? = some tk) (hne : i ≠ c.t) :
     ∃ tk', (mgrFinish c s obs).1.tasks[i]? = some tk' ∧ tk'.marked = true := by
   unfold mgrFinish
-  simp only []
   rw [others_mgrComplete _ _ _ _ _ hne]
   exact C13_cleanup_marks_every_task s c.t i tk h hne
 
@@ -366,7 +365,6 @@ theorem allMarked_run (P : Program) : ∀ (cs : List Choice) (s s' : St) (obs : 
 
 theorem len_mgrFinish (c : Ctx) (s : St) (obs : List Obs) : (mgrFinish c s obs).1.tasks.length = s.tasks.length := by
   unfold mgrFinish
-  simp only []
   have hr : ∀ s' obs' o', (mgrReturn c s' obs' o').1.tasks.length = s'.tasks.length := by
     intro s' obs' o'; simp only [mgrReturn, St.setOutcome, endTask]; split <;> simp
   have hc : ∀ s' obs' o', (mgrComplete c s' obs' o').1.tasks.length = s'.tasks.length := by
